@@ -500,8 +500,11 @@ impl Domain for ClusterDomain {
                 // repair-end <j> <i>: the gate opens, the fetch reads node i's store AS IT IS NOW, the exchange completes
                 use std::sync::atomic::Ordering;
                 let (j, i) = (u(1), u(2));
-                self.nodes[i].gate_fetch.store(false, Ordering::SeqCst);
-                self.nodes[i].gate.notify_one();
+                // only a fetch that is waiting at the gate is released: `notify_one` without a waiter would leave a permit
+                // behind and let the NEXT gated fetch of this node through at once
+                if self.nodes[i].gate_fetch.swap(false, Ordering::SeqCst) == false && self.nodes[i].reached.swap(false, Ordering::SeqCst) {
+                    self.nodes[i].gate.notify_one();
+                }
                 let h = self.nodes[j].split.take().expect("repair in progress");
                 let (tracker, r) = rt.block_on(async { h.await.expect("join") });
                 self.nodes[j].tracker = tracker;
